@@ -251,6 +251,12 @@ impl Prop for C05 {
                 })
                 .collect();
         }
+        if !deep && side.pct(4) {
+            // wide sparse parent (same side stream): 8..=14 child names, a core subset that keeps coming back, other
+            // occurrences that lack exactly the core - two colliding names demoted in one pass, in whatever order the
+            // demotion walks them
+            docs = super::histories::family(&mut side, &cfg, 9).unwrap();
+        }
         if !deep && rng.pct(8) {
             // a stream that ends early, at a token boundary: the reader reports a plain end of input
             let i = rng.below(docs.len());
